@@ -29,13 +29,16 @@ struct Rng {
 };
 
 // Run f and map a thrown standard exception to the four-value enum of the model.
+inline void debug_what(const std::exception& e) {
+    if (std::getenv("VERIF_DEBUG")) std::cerr << "EXCEPTION " << e.what() << std::endl;
+}
 template <class F> std::string err_kind(F&& f) {
     try { f(); return ""; }
-    catch (const std::invalid_argument&) { return "err:invalid_argument"; }
-    catch (const std::out_of_range&) { return "err:out_of_range"; }
-    catch (const std::logic_error&) { return "err:logic_error"; }
-    catch (const std::runtime_error&) { return "err:runtime_error"; }
-    catch (const std::exception&) { return "err:other"; }
+    catch (const std::invalid_argument& e) { debug_what(e); return "err:invalid_argument"; }
+    catch (const std::out_of_range& e) { debug_what(e); return "err:out_of_range"; }
+    catch (const std::logic_error& e) { debug_what(e); return "err:logic_error"; }
+    catch (const std::runtime_error& e) { debug_what(e); return "err:runtime_error"; }
+    catch (const std::exception& e) { debug_what(e); return "err:other"; }
 }
 
 struct Stats {
